@@ -3,7 +3,7 @@
    The model is coq/Geom/GeomModel.v (what Geometry derives from a description), coq/Geom/CondFile.v (conductivity
    file).  Geometry enters through oracles handed in as data (solid-angle sign per interface, insideness per probe
    and interface) and through explicit hypotheses on them (monotone chain). *)
-From OM Require Import Base.Lists Base.Ops Geom.MeshTopo Geom.GeomModel Geom.GeomProofs Geom.OldOrdering Geom.Laminar Geom.CondFile Geom.CondProofs Geom.SaveGeom Geom.MeshTopoProofs.
+From OM Require Import Base.Lists Base.Ops Geom.MeshTopo Geom.GeomModel Geom.GeomProofs Geom.OldOrdering Geom.FinalizeProofs Geom.Laminar Geom.CondFile Geom.CondProofs Geom.SaveGeom Geom.MeshTopoProofs.
 From Coq Require Import Permutation.
 Local Open Scope Z_scope.
 
@@ -22,6 +22,26 @@ Theorem generate_indices_bijection : forall g fl invalid,
   /\ ix_n ix = Z.of_nat (Nv + Nt) + Z.of_nat B /\ ix_nb ix = Z.of_nat B.
 Proof. exact generate_indices_new_spec. Qed.
 Print Assumptions generate_indices_bijection.
+
+(* the same on what Geometry::finalize really produces: its flags satisfy isolated => current_barrier, so the first
+   range is exactly {valid vertices} U {triangles of meshes that are not current barriers} *)
+Theorem finalize_flags_isolated_are_barriers : forall g hasc zero snz old fi,
+  finalize g hasc zero snz old = (StOk, Some fi) ->
+  forall m, f_iso (nth m (mk_flags (fi_marks fi)) flags0) = true -> f_cb (nth m (mk_flags (fi_marks fi)) flags0) = true.
+Proof. exact finalize_good. Qed.
+Print Assumptions finalize_flags_isolated_are_barriers.
+
+Theorem finalize_indices_bijection : forall g hasc zero snz fi, finalize g hasc zero snz false = (StOk, Some fi) ->
+  let fl := mk_flags (fi_marks fi) in let invalid := mk_invalid (fi_marks fi) in let ix := fi_idx fi in
+  let Nv := valid_count (seq 0 (g_nv g)) invalid in
+  let Nt := ntris carries_current (g_meshes g) fl in
+  let B := ntris barf (g_meshes g) fl in
+  assigned (ix_v ix) ++ sel carries_current fl (ix_t ix) = zseq 0 (Nv + Nt)
+  /\ sel barf fl (ix_t ix) = zseq (Z.of_nat (Nv + Nt)) B
+  /\ sel isof fl (ix_t ix) = repeat (-1) (ntris isof (g_meshes g) fl)
+  /\ ix_n ix = Z.of_nat (Nv + Nt) + Z.of_nat B /\ ix_nb ix = Z.of_nat B.
+Proof. exact finalize_indices. Qed.
+Print Assumptions finalize_indices_bijection.
 
 (* the enumeration 0,1,...,N-1 has no repetition and covers exactly [0,N): "bijection onto [0,N)" *)
 Theorem index_list_is_range : forall a n, NoDup (zseq a n) /\ forall x, In x (zseq a n) <-> a <= x < a + Z.of_nat n.
